@@ -92,7 +92,10 @@ func checkSetPermsPathsAs(p *Prog, r *Report, rule string) {
 		if cv, ok := v.(*ssa.Convert); ok {
 			v = cv.X
 		}
-		if derivesFrom(v, idxP) {
+		if pe != nil {
+			v = pe.C(unwrapLocal(v)) // a helper's parameter → the caller's argument
+		}
+		if v == ssa.Value(idxP) || derivesFrom(v, idxP) {
 			return true
 		}
 		if ld, ok := v.(*ssa.UnOp); ok && ld.Op == token.MUL {
